@@ -2,42 +2,72 @@
  * C18 - hex dump output parses back to the same bytes; the parser is safe on
  * any text (librfn/hex.c).
  *
- * Engine C (bounded-exhaustive enumeration), three parts:
- *  (a) dump -> parse: byte arrays of length 0..49, every byte value at every
- *      position over 5 backgrounds; hex_dump_to_file() into a memstream, the
- *      text shape is checked, the text is parsed back with hex_get_byte().
+ * hex.c is linked as an object of its own (lib=['hex.c'] in checks.d/C18.py):
+ * nothing here shares a translation unit with it, only <librfn/hex.h> is
+ * included, and whatever hex.c keeps in statics is reset before every case.
+ *
+ * Engine C (bounded-exhaustive enumeration), five families:
+ *  (a) dump -> parse.  a1: byte arrays of length 0..49, every byte value at
+ *      every position over 6 backgrounds.  a2: lengths on both sides of the
+ *      powers of two an index or a length could be narrowed to (2^6 .. 2^9, 2^12;
+ *      thorough adds 2^10, 2^15, 2^16) and of the next multiple of 16, all
+ *      backgrounds (two of them with a period that is not a power of two), the
+ *      odd byte at the positions next to those boundaries, 10 boundary values.
+ *      hex_dump_to_file() writes into a bounded sink, the text must be lines of
+ *      16 lower-case pairs, and is parsed back with hex_get_byte().
  *  (b) well-formed text: every text of the grammar
- *          line := [hexdigit+ ':'] (ws* ["0x"] hex hex)* ws* '\n'
- *      built from a finite token alphabet, 1 and 2 lines, up to 3 pairs a
- *      line, plus a sweep over all 22x22 two-character hex pairs. The expected
- *      bytes come from an independent reference parser of that grammar.
+ *          line := [ws* hexdigit+ ':'] (ws* ["0x"] hex hex)* ws* '\n'
+ *      built from finite token alphabets (white-space tokens include repeated
+ *      blanks and tabs), 1 and 2 lines, up to 3 pairs a line, plus sweeps over all
+ *      22x22 two-character hex pairs, CR/VT/FF and repeated separators in every
+ *      position, indented and wide addresses. The expected bytes come from an
+ *      independent reference parser of that grammar.
  *  (c) arbitrary text: ALL strings of length <= 7 (quick) / <= 8 (thorough)
- *      over { 0 a F x : ' ' '\n' z 0x80 }, placed with the NUL as the last byte
- *      before a PROT_NONE page and, second pass, starting right after one.
+ *      over { 0 a F x : ' ' '\n' z 0x80 }, and ALL strings of length <= 4 / <= 5
+ *      over a 28-character alphabet holding every character a libc number parser
+ *      or a sloppy range test treats specially (signs, x X, the neighbours of the
+ *      hex ranges, high bytes that alias hex digits or white space when masked or
+ *      sign-extended).
+ *  (d) byte sweep: short templates in which one position takes all 256 byte
+ *      values and every pair of positions all 256 x 256 combinations.
+ *  (e) long texts: white-space runs, blank lines, lines, pairs per line, address
+ *      digits and prefixed lines in numbers on both sides of 2^7 and 2^8
+ *      (thorough: 2^15, 2^16).
+ * Every text of (b)..(e) is placed with the NUL as the last byte before a
+ * PROT_NONE page and ((c), (d)) again starting right after one; the safety
+ * clauses (range, termination, sticky -1, no fault) are judged on every text and
+ * the returned bytes on every text that the reference grammar accepts.
  *
  * hex_get_byte(s, &p) keeps its cursor in the caller's variable *p: the first
  * call passes the text, later calls pass s == NULL and resume from *p; at the
  * end *p becomes NULL. Two calling protocols are driven:
- *   mode 1: hex_get_byte(text, &p), then hex_get_byte(NULL, &p) ...   (resume)
+ *   mode 1: hex_get_byte(text, &p), then hex_get_byte(NULL, &p) ...   (resume);
+ *           before the first call *p points to a readable decoy string
  *   mode 2: hex_get_byte(cur, &cur) on every call (what tests/hextest.c does);
- *           here every call is a "first" call, so an address prefix on a later
- *           line would swallow the rest of the current line by construction;
- *           mode 2 is therefore only value-checked on texts without ':'.
+ *           here every call is a "first" call; mode 2 is only value-checked on
+ *           texts without an address prefix.
  *
  * A failing case is minimised (deterministic greedy deletion/canonicalisation
- * that keeps the same failure kind) and the signature is
+ * that keeps the same failure kind, with a deterministic work budget) and the
+ * signature is
  *      C18<part>|<kind>|<minimal case>
  * so one root cause gives one or very few signatures.
  */
 #include "vx.h"
 
 #include <ctype.h>
+#include <stddef.h>
+#include <stdio_ext.h>
 
-#include "hex.c"
+#include <librfn/hex.h>
 
-#define MAXT 200			/* longest text handled */
+#define MAXT 200000			/* longest text handled */
 #define EXTRA 3				/* calls made after the first -1 */
 #define MAXCALLS (MAXT + 2 + EXTRA)
+#define GSIZE ((MAXT + 2 + 4095) / 4096 * 4096)
+#define A_MAXBYTES 65537		/* longest array dumped */
+#define ARSIZE ((A_MAXBYTES + 4095) / 4096 * 4096)
+#define HANG_CAP 3			/* a worker stops enumerating after this many watchdog hits */
 
 /* ------------------------------------------------------------ guarded memory */
 
@@ -45,18 +75,23 @@ static uint8_t *GR_END;			/* one past the last accessible byte before a guard pa
 static uint8_t *GL_BASE;		/* first accessible byte after a guard page */
 static uint8_t *AR_END;			/* like GR_END, for the byte array of part (a) */
 static const char **CUR;		/* the caller's cursor variable, itself flush against a guard page */
-static const char *POISON;		/* an address inside a PROT_NONE page */
+static const char *DECOY;		/* what *p points to before the first call of mode 1: readable, and hex pairs
+					 * that no case expects, so that using it shows */
 static int left_dirty;
 
 static void mem_setup(void)
 {
-	GR_END = (uint8_t *)vx_guard_alloc(4096, 1) + 4096;
-	GL_BASE = vx_guard_alloc(4096, 0);
-	AR_END = (uint8_t *)vx_guard_alloc(4096, 1) + 4096;
+	static const char decoy[16] = "7e 7e 7e 7e 7e\n";
+	char *d;
+	GR_END = (uint8_t *)vx_guard_alloc(GSIZE, 1) + GSIZE;
+	GL_BASE = vx_guard_alloc(GSIZE, 0);
+	AR_END = (uint8_t *)vx_guard_alloc(ARSIZE, 1) + ARSIZE;
 	CUR = vx_guard_alloc(sizeof(*CUR), 1);
-	POISON = (const char *)GR_END + 64;
-	memset(GL_BASE, '3', 4096);
-	memset(GR_END - 4096, '3', 4096);
+	d = vx_guard_alloc(sizeof(decoy), 1);
+	memcpy(d, decoy, sizeof(decoy));
+	DECOY = d;
+	memset(GL_BASE, '3', GSIZE);
+	memset(GR_END - GSIZE, '3', GSIZE);
 }
 
 /* place == 0: the NUL is the last accessible byte; place == 1: the first
@@ -80,12 +115,14 @@ static const char *place_text(const uint8_t *t, int n, int place)
 
 typedef struct {
 	int n;				/* calls made */
-	int v[MAXCALLS];		/* their results */
 	int first_end;			/* index of the first -1, or -1 */
 	int fault;			/* vx_fault_kind, 0 = none */
+	int v[MAXCALLS];		/* their results */
 } obs_t;
 
-static uint64_t n_calls, n_bytes, n_minus1, n_faults;
+static uint64_t n_calls, n_bytes, n_minus1, n_faults, n_abandoned_streams;
+
+static int giving_up(void) { return vx_hangs_seen >= HANG_CAP; }
 
 static void run_parse(const char *s, int len, int mode, obs_t *out)
 {
@@ -94,9 +131,10 @@ static void run_parse(const char *s, int len, int mode, obs_t *out)
 	o->n = 0; o->first_end = -1; o->fault = 0;
 	if (VX_TRY) {
 		int extra = 0;
-		*CUR = mode == 1 ? POISON : s;
+		*CUR = mode == 1 ? DECOY : s;
 		for (;;) {
 			int r, i = o->n;
+			vx_opseq++;		/* the watchdog times one call, not the whole text */
 			if (mode == 1) r = hex_get_byte(i == 0 ? s : NULL, CUR);
 			else r = hex_get_byte(*CUR, CUR);
 			o->v[i] = r; o->n = i + 1;
@@ -116,11 +154,14 @@ static void run_parse(const char *s, int len, int mode, obs_t *out)
 	for (int i = 0; i < out->n; i++) { if (out->v[i] == -1) n_minus1++; else n_bytes++; }
 }
 
+#define FAULT_RUNAWAY 1000		/* the dump wrote far more than any dump of that many bytes can need */
+
 static const char *fault_name(int k)
 {
 	switch (k) {
 	case VX_FAULT_ASSERT: return "fault:assert";
 	case VX_FAULT_HANG: return "fault:hang";
+	case FAULT_RUNAWAY: return "dump-runaway";
 	case SIGSEGV: return "fault:SIGSEGV";
 	case SIGBUS: return "fault:SIGBUS";
 	case SIGFPE: return "fault:SIGFPE";
@@ -144,11 +185,11 @@ static const char *judge(const obs_t *o, const int *exp, int m)
 	return NULL;
 }
 
-/* ------------------------------------------------ reference grammar (part b) */
+/* ---------------------------------------------------------- reference grammar */
 
-static int is_hex(int c) { return (c >= '0' && c <= '9') || (c >= 'a' && c <= 'f') || (c >= 'A' && c <= 'F'); }
-static int hexval(int c) { return c <= '9' ? c - '0' : (c | 0x20) - 'a' + 10; }
-static int is_ws(int c) { return c == ' ' || c == '\t' || c == '\r' || c == '\v' || c == '\f'; }
+static int ref_is_hex(int c) { return (c >= '0' && c <= '9') || (c >= 'a' && c <= 'f') || (c >= 'A' && c <= 'F'); }
+static int ref_hexval(int c) { return c <= '9' ? c - '0' : (c | 0x20) - 'a' + 10; }
+static int ref_is_ws(int c) { return c == ' ' || c == '\t' || c == '\r' || c == '\v' || c == '\f'; }
 
 #define TF_ADDR   1		/* some line has an address prefix */
 #define TF_MIXED  2		/* a line with pairs but without prefix precedes a line with prefix */
@@ -156,36 +197,37 @@ static int is_ws(int c) { return c == ' ' || c == '\t' || c == '\r' || c == '\v'
 #define TF_UPPER  8		/* some pair has an upper-case digit */
 #define TF_WS    16		/* white space present */
 
-/* 1 if t[0..n) is a sequence of well-formed lines; the bytes it denotes -> exp[0..*m) */
-static int ref_parse(const uint8_t *t, int n, int *exp, int *m, int *flags, int *nlines)
+/* 1 if t[0..n) is a sequence of well-formed lines; the bytes it denotes -> exp[0..*m);
+ * linepairs (optional): the number of pairs on each line */
+static int ref_parse(const uint8_t *t, int n, int *exp, int *m, int *flags, int *nlines, int *linepairs)
 {
 	int i = 0, fl = 0, plain_pairs = 0, lines = 0;
 	*m = 0;
 	while (i < n) {
 		int e = i, c = -1, pairs = 0;
-		while (e < n && t[e] != '\n') e++;
+		while (e < n && t[e] != '\n') { if (t[e] == ':' && c < 0) c = e; e++; }
 		if (e == n) return 0;			/* unterminated line */
-		for (int k = i; k < e; k++) if (t[k] == ':') { c = k; break; }
 		if (c >= 0) {
 			int a0 = i;
-			while (a0 < c && is_ws(t[a0])) { a0++; fl |= TF_WS; }	/* an indented address: white space is arbitrary */
+			while (a0 < c && ref_is_ws(t[a0])) { a0++; fl |= TF_WS; }	/* an indented address: white space is arbitrary */
 			if (c == a0) return 0;
-			for (int k = a0; k < c; k++) if (!is_hex(t[k])) return 0;
+			for (int k = a0; k < c; k++) if (!ref_is_hex(t[k])) return 0;
 			i = c + 1; fl |= TF_ADDR;
 			if (plain_pairs) fl |= TF_MIXED;
 		}
 		for (;;) {
-			while (i < e && is_ws(t[i])) { i++; fl |= TF_WS; }
+			while (i < e && ref_is_ws(t[i])) { i++; fl |= TF_WS; }
 			if (i == e) break;
 			if (t[i] == '0' && i + 1 < e && t[i + 1] == 'x') { i += 2; fl |= TF_PREFIX; }
-			if (i + 1 < e && is_hex(t[i]) && is_hex(t[i + 1])) {
-				if (isupper(t[i]) || isupper(t[i + 1])) fl |= TF_UPPER;
-				exp[(*m)++] = hexval(t[i]) * 16 + hexval(t[i + 1]);
+			if (i + 1 < e && ref_is_hex(t[i]) && ref_is_hex(t[i + 1])) {
+				if ((t[i] >= 'A' && t[i] <= 'F') || (t[i + 1] >= 'A' && t[i + 1] <= 'F')) fl |= TF_UPPER;
+				exp[(*m)++] = ref_hexval(t[i]) * 16 + ref_hexval(t[i + 1]);
 				i += 2; pairs++;
 			} else
 				return 0;
 		}
 		if (c < 0) plain_pairs += pairs;
+		if (linepairs) linepairs[lines] = pairs;
 		i = e + 1; lines++;
 	}
 	if (flags) *flags = fl;
@@ -196,92 +238,117 @@ static int ref_parse(const uint8_t *t, int n, int *exp, int *m, int *flags, int 
 /* ------------------------------------------------------------------- cases */
 
 typedef struct {
-	char part;			/* 'a', 'b', 'c' */
+	char part;			/* 'a' .. 'e' */
 	int mode;			/* calling protocol 1 / 2 */
-	int place;			/* 0 before a guard page, 1 after one (b, c) */
+	int place;			/* 0 before a guard page, 1 after one (b .. e) */
 	int len, pos, val, bg;		/* (a): array length, position and value of the odd byte, background */
-	uint8_t text[MAXT + 1]; int n;	/* (b), (c): the text; (a): filled in with the dump */
+	int n; uint8_t text[MAXT + 2];	/* (b) .. (e): the text; (a): filled in with the dump */
 } case_t;
 
-static const int bg_fill[] = { 0x00, 0x0f, 0xa0, 0xff, -1 /* ramp */ };
-#define NBG 5
+static void case_copy(case_t *d, const case_t *s)
+{
+	memcpy(d, s, offsetof(case_t, text) + (size_t)(s->n > 0 ? s->n : 0) + 1);
+}
+
+/* backgrounds of (a): constants, a ramp of period 256 and two of a period that is no power of two (an index that
+ * wraps at 2^8 or 2^16 lands on a different byte) */
+static const int bg_fill[] = { 0x00, 0x0f, 0xa0, 0xff, -1 /* ramp */, -2 /* i % 251 */ };
+#define NBG 6
 #define A_MAXLEN 49
 
 static void a_array(const case_t *c, uint8_t *arr)
 {
-	for (int i = 0; i < c->len; i++) arr[i] = (uint8_t)(bg_fill[c->bg] >= 0 ? bg_fill[c->bg] : i * 37 + 11);
+	int f = bg_fill[c->bg];
+	for (int i = 0; i < c->len; i++) arr[i] = (uint8_t)(f >= 0 ? f : f == -1 ? i * 37 + 11 : (i % 251) ^ (i / 251 * 16));
 	if (c->len) arr[c->pos] = (uint8_t)c->val;
 }
 
 /* what the run of a case showed, for messages and the distinct count */
-typedef struct { obs_t o; int exp[MAXT]; int m; int have_exp; int flags, nlines; int in_grammar; char detail[160]; } res_t;
+typedef struct { int m; int have_exp; int flags, nlines; int in_grammar; char detail[200]; obs_t o; int exp[MAXT + 2]; } res_t;
 
-static uint64_t n_dumps;
+static uint64_t n_dumps, n_dump_unjudged_long;
 
-/* shape of the dump: lines of 16 two-digit lower-case pairs (the last one
- * shorter), the digits being those of the array. Blanks between pairs and a
- * missing final newline are tolerated: the statement does not exclude them. */
-static const char *a_shape(const uint8_t *arr, int len, const char *txt, size_t sz, res_t *r)
+/* the sink hex_dump_to_file writes to: a stdio stream over a fixed buffer (no allocation and no lock inside the
+ * section under test, so that a fault or a watchdog hit inside stdio cannot dead-lock or corrupt the harness), with a
+ * limit far above anything a dump of the array can need: an output loop that has lost its end condition is stopped
+ * there instead of filling the memory */
+static struct { uint8_t *buf; size_t n, cap, limit; int overflow; } SINK;
+static char sink_iobuf[BUFSIZ];
+
+static ssize_t sink_write(void *cookie, const char *b, size_t n)
 {
-	int pairs_total = 0, inline_digits = 0, line = 0, line_start = 0;
-	for (size_t i = 0; i <= sz; i++) {
-		int ch = i < sz ? (unsigned char)txt[i] : '\n';
-		if (i == sz && inline_digits == 0) break;
-		if (ch == '\n') {
-			if (inline_digits & 1) { snprintf(r->detail, sizeof(r->detail), "line %d has an odd number of digits", line); return "dump-shape"; }
-			int want = len - line_start; if (want > 16) want = 16; if (want < 0) want = 0;
-			if (inline_digits / 2 != want && !(inline_digits == 0 && line_start >= len)) {
-				snprintf(r->detail, sizeof(r->detail), "line %d has %d pairs, expected %d", line, inline_digits / 2, want);
-				return "dump-shape";
-			}
-			line++; inline_digits = 0; line_start = pairs_total;
-		} else if (ch == ' ' || ch == '\t') {
-			;
-		} else if ((ch >= '0' && ch <= '9') || (ch >= 'a' && ch <= 'f')) {
-			int k = pairs_total;
-			if (k < len) {
-				int d = (inline_digits & 1) ? arr[k] & 15 : arr[k] >> 4;
-				if (hexval(ch) != d) {
-					snprintf(r->detail, sizeof(r->detail), "digit %d of byte %d is '%c', byte is 0x%02x", inline_digits & 1, k, ch, arr[k]);
-					return "dump-digits";
-				}
-			}
-			inline_digits++;
-			if (!(inline_digits & 1)) pairs_total++;
-		} else {
-			snprintf(r->detail, sizeof(r->detail), "character 0x%02x at offset %zu is not a lower-case hex digit", ch, i);
-			return "dump-shape";
+	(void)cookie;
+	if (SINK.n + n > SINK.limit || SINK.n + n > SINK.cap) {
+		SINK.overflow = 1;
+		if (vx_armed) {
+			vx_fault_kind = FAULT_RUNAWAY;
+			snprintf(vx_fault_msg, sizeof(vx_fault_msg), "more than %zu characters written", SINK.limit);
+			siglongjmp(vx_jb, 1);
 		}
+		return (ssize_t)n;		/* discarded */
 	}
-	if (pairs_total != len) { snprintf(r->detail, sizeof(r->detail), "%d pairs for %d bytes", pairs_total, len); return "dump-shape"; }
+	memcpy(SINK.buf + SINK.n, b, n); SINK.n += n;
+	return (ssize_t)n;
+}
+
+/* shape of the dump: lines of 16 two-digit lower-case pairs (the last one shorter), the pairs being those of the
+ * array. What the statement allows a line to carry besides (white space, an address prefix, 0x) and a missing final
+ * newline are tolerated: the statement does not exclude them. */
+static const char *a_shape(const uint8_t *arr, int len, case_t *c, res_t *r)
+{
+	static int lp[MAXT + 2];
+	int m = 0, fl = 0, nl = 0, n = c->n, done = 0, ok;
+	if (n && c->text[n - 1] != '\n') c->text[n++] = '\n';
+	ok = ref_parse(c->text, n, r->exp, &m, &fl, &nl, lp);
+	c->text[c->n] = 0;
+	if (!ok) { snprintf(r->detail, sizeof(r->detail), "the dump is not a sequence of lines of two-digit hex pairs"); return "dump-shape"; }
+	if (fl & TF_UPPER) { snprintf(r->detail, sizeof(r->detail), "a pair has an upper-case digit"); return "dump-shape"; }
+	for (int i = 0; i < m && i < len; i++)
+		if (r->exp[i] != arr[i]) { snprintf(r->detail, sizeof(r->detail), "pair %d is %02x, byte is 0x%02x", i, r->exp[i], arr[i]); return "dump-digits"; }
+	for (int l = 0; l < nl; l++) {
+		int want = len - done; if (want > 16) want = 16;
+		if (lp[l] == 0 && done >= len) continue;
+		if (lp[l] != want) { snprintf(r->detail, sizeof(r->detail), "line %d has %d pairs, expected %d", l, lp[l], want); return "dump-shape"; }
+		done += lp[l];
+	}
+	if (m != len) { snprintf(r->detail, sizeof(r->detail), "%d pairs for %d bytes", m, len); return "dump-shape"; }
 	return NULL;
 }
 
-/* run one case completely; returns the failure kind or NULL (passes, or a (b)
- * text outside the grammar / outside the scope of mode 2) */
+/* run one case completely; returns the failure kind or NULL */
 static const char *eval_case(case_t *c, res_t *r)
 {
 	const char *k;
-	r->have_exp = 0; r->detail[0] = 0; r->o.n = 0; r->o.fault = 0; r->o.first_end = -1; r->flags = 0;
+	r->have_exp = 0; r->detail[0] = 0; r->o.n = 0; r->o.fault = 0; r->o.first_end = -1; r->flags = 0; r->in_grammar = 0; r->m = 0;
+	vx_lib_reset();				/* whatever hex.c keeps in statics starts afresh in every case */
 	if (c->part == 'a') {
 		uint8_t *arr = AR_END - c->len;
-		char *buf = NULL; size_t sz = 0;
 		volatile int fault = 0;
+		static cookie_io_functions_t io = { .write = sink_write };
 		a_array(c, arr);
-		FILE *f = open_memstream(&buf, &sz);
-		if (!f) { perror("open_memstream"); _exit(3); }
+		c->n = 0; c->text[0] = 0;
+		SINK.n = 0; SINK.overflow = 0; SINK.limit = 16 * (size_t)c->len + 4096;
+		FILE *f = fopencookie(NULL, "w", io);
+		if (!f) { perror("fopencookie"); _exit(3); }
+		__fsetlocking(f, FSETLOCKING_BYCALLER);
+		setvbuf(f, sink_iobuf, _IOFBF, sizeof(sink_iobuf));
 		n_dumps++;
-		if (VX_TRY) { hex_dump_to_file(f, arr, (size_t)c->len); VX_END; }
+		if (VX_TRY) { hex_dump_to_file(f, arr, (size_t)c->len); fflush(f); VX_END; }
 		else { VX_END; fault = vx_fault_kind; n_faults++; }
-		if (fault) { snprintf(r->detail, sizeof(r->detail), "hex_dump_to_file: %.120s", vx_fault_msg); return fault_name(fault); }
-		fclose(f);
-		if (sz > MAXT || strlen(buf) != sz) {
-			snprintf(r->detail, sizeof(r->detail), "dump is %zu bytes long (NUL at %zu)", sz, strlen(buf));
-			c->n = 0; free(buf); return "dump-shape";
+		if (fault) {		/* the stream is in an unknown state: it is abandoned, not closed */
+			n_abandoned_streams++;
+			snprintf(r->detail, sizeof(r->detail), "hex_dump_to_file: %.120s", vx_fault_msg);
+			return fault_name(fault);
 		}
-		memcpy(c->text, buf, sz); c->n = (int)sz; c->text[sz] = 0;
-		k = a_shape(arr, c->len, buf, sz, r);
-		free(buf);
+		fclose(f);
+		if (SINK.overflow) { snprintf(r->detail, sizeof(r->detail), "hex_dump_to_file: more than %zu characters written", SINK.limit); return "dump-runaway"; }
+		if (SINK.n >= MAXT) { n_dump_unjudged_long++; return NULL; }	/* a (legal) format too wide for the buffers here */
+		memcpy(c->text, SINK.buf, SINK.n); c->n = (int)SINK.n; c->text[c->n] = 0;
+		if (memchr(c->text, 0, (size_t)c->n)) {
+			snprintf(r->detail, sizeof(r->detail), "NUL character in the dump at offset %zu", strlen((char *)c->text));
+			return "dump-shape";
+		}
+		k = a_shape(arr, c->len, c, r);
 		if (k) return k;
 		for (int i = 0; i < c->len; i++) r->exp[i] = arr[i];
 		r->m = c->len; r->have_exp = 1;
@@ -290,18 +357,11 @@ static const char *eval_case(case_t *c, res_t *r)
 		if (k && !strncmp(k, "fault", 5)) snprintf(r->detail, sizeof(r->detail), "hex_get_byte: %.120s", vx_fault_msg);
 		return k;
 	}
-	if (c->part == 'b') {
-		r->in_grammar = ref_parse(c->text, c->n, r->exp, &r->m, &r->flags, &r->nlines);
-		if (!r->in_grammar) return NULL;
-		if (c->mode == 2 && (r->flags & TF_ADDR)) return NULL;
-		r->have_exp = 1;
-		run_parse(place_text(c->text, c->n, c->place), c->n, c->mode, &r->o);
-		k = judge(&r->o, r->exp, r->m);
-		if (k && !strncmp(k, "fault", 5)) snprintf(r->detail, sizeof(r->detail), "hex_get_byte: %.120s", vx_fault_msg);
-		return k;
-	}
+	/* texts: the safety clauses always, the values whenever the reference grammar accepts the text */
+	r->in_grammar = ref_parse(c->text, c->n, r->exp, &r->m, &r->flags, &r->nlines, NULL);
+	r->have_exp = r->in_grammar && !(c->mode == 2 && (r->flags & TF_ADDR));
 	run_parse(place_text(c->text, c->n, c->place), c->n, c->mode, &r->o);
-	k = judge(&r->o, NULL, 0);
+	k = judge(&r->o, r->have_exp ? r->exp : NULL, r->m);
 	if (k && !strncmp(k, "fault", 5)) snprintf(r->detail, sizeof(r->detail), "hex_get_byte: %.120s", vx_fault_msg);
 	return k;
 }
@@ -309,54 +369,113 @@ static const char *eval_case(case_t *c, res_t *r)
 /* ------------------------------------------------------------- minimisation */
 
 static uint64_t n_min_evals;
+static uint64_t min_work;		/* characters evaluated while minimising the current case (deterministic budget) */
+#define MIN_WORK_BUDGET 60000000ull
 
 static int still_fails(case_t *c, const char *kind)
 {
-	res_t r;
+	static res_t r;
+	if (giving_up() || min_work > MIN_WORK_BUDGET) return 0;
 	n_min_evals++;
+	min_work += (uint64_t)(c->part == 'a' ? 4 * c->len : c->n) + 64;
 	const char *k = eval_case(c, &r);
 	return k && !strcmp(k, kind);
 }
 
+/* the array lengths of (a), ascending: every length up to A_MAXLEN, then both sides of the boundaries */
+static const int a_long_quick[] = { 63, 64, 65, 79, 80, 81, 127, 128, 129, 143, 144, 145, 255, 256, 257, 271, 272, 273, 511, 512, 513, 527, 528, 529,
+				    1023, 1024, 1025, 4095, 4096, 4097 };
+static const int a_long_thorough[] = { 32767, 32768, 32769, 65535, 65536, 65537 };
+#define LENGTHOF(a) ((int)(sizeof(a) / sizeof((a)[0])))
+
+static int a_positions(int len, int *out)
+{
+	static const int cand[] = { 0, 1, 15, 16, 17, 127, 128, 254, 255, 256, 257, 4095, 4096, 32767, 32768, 65534, 65535, 65536 };
+	int n = 0;
+	for (int i = 0; i < LENGTHOF(cand); i++) if (cand[i] < len - 2) out[n++] = cand[i];
+	if (len >= 2) out[n++] = len - 2;
+	if (len >= 1) out[n++] = len - 1;
+	return n;
+}
+/* the li-th array length of (a) in ascending order, -1 past the end */
+static int a_len_candidate(int li)
+{
+	if (li <= A_MAXLEN) return li;
+	li -= A_MAXLEN + 1;
+	if (li < LENGTHOF(a_long_quick)) return a_long_quick[li];
+	li -= LENGTHOF(a_long_quick);
+	return li < LENGTHOF(a_long_thorough) ? a_long_thorough[li] : -1;
+}
+static const int a_values[] = { 0x00, 0x09, 0x0a, 0x10, 0x7f, 0x80, 0x9f, 0xa0, 0xf9, 0xff };
+
+/* (a): does the case with these parameters fail in the same way? then it replaces *c */
+static int try_a(case_t *c, const char *kind, int len, int pos, int val, int bg)
+{
+	static case_t t;
+	memcpy(&t, c, offsetof(case_t, text) + 1);
+	t.n = 0; t.text[0] = 0; t.len = len; t.pos = pos; t.val = val; t.bg = bg;
+	if (!still_fails(&t, kind)) return 0;
+	c->len = len; c->pos = pos; c->val = val; c->bg = bg;
+	return 1;
+}
+
 static void minimise(case_t *c, const char *kind)
 {
+	static case_t t;
 	int changed = 1;
-	case_t t;
+	min_work = 0;
 	while (changed) {
 		changed = 0;
-		if (c->mode == 2) { t = *c; t.mode = 1; if (still_fails(&t, kind)) { *c = t; changed = 1; } }
-		if (c->place == 1) { t = *c; t.place = 0; if (still_fails(&t, kind)) { *c = t; changed = 1; } }
+		if (c->mode == 2) { case_copy(&t, c); t.mode = 1; if (still_fails(&t, kind)) { case_copy(c, &t); changed = 1; } }
+		if (c->place == 1) { case_copy(&t, c); t.place = 0; if (still_fails(&t, kind)) { case_copy(c, &t); changed = 1; } }
 		if (c->part == 'a') {
-			for (int b = 0; b < c->bg; b++) { t = *c; t.bg = b; if (still_fails(&t, kind)) { *c = t; changed = 1; break; } }
-			for (int v = 0; v < c->val; v++) { t = *c; t.val = v; if (still_fails(&t, kind)) { *c = t; changed = 1; break; } }
-			for (int l = c->len ? c->pos + 1 : 0; l < c->len; l++) { t = *c; t.len = l; if (still_fails(&t, kind)) { *c = t; changed = 1; break; } }
-			if (c->len > 0) { t = *c; t.len = 0; t.pos = 0; t.val = 0; t.bg = 0; if (still_fails(&t, kind)) { *c = t; changed = 1; } }
-			for (int p = 0; p < c->pos; p++) { t = *c; t.pos = p; if (still_fails(&t, kind)) { *c = t; changed = 1; break; } }
-			/* shorter array with the odd byte moved down */
-			for (int l = 1; l < c->len && !changed; l++)
-				for (int p = 0; p < l && p <= c->pos; p++) { t = *c; t.len = l; t.pos = p; if (still_fails(&t, kind)) { *c = t; changed = 1; break; } }
+			int ps[64], np;
+			if (c->len > 0 && try_a(c, kind, 0, 0, 0, 0)) { changed = 1; continue; }
+			for (int b = 0; b < c->bg; b++) if (try_a(c, kind, c->len, c->pos, c->val, b)) { changed = 1; break; }
+			for (int v = 0; v < c->val; v++) if (try_a(c, kind, c->len, c->pos, v, c->bg)) { changed = 1; break; }
+			/* a shorter array: every length up to A_MAXLEN, then the boundary lengths; the odd byte stays or moves down */
+			for (int pass = 0, found = 0; pass < 2 && !found; pass++)
+				for (int li = 1, l; (l = a_len_candidate(li)) >= 0 && l < c->len; li++) {
+					if (pass == 0 && c->pos >= l) continue;
+					if (try_a(c, kind, l, pass == 0 ? c->pos : l - 1, c->val, c->bg)) { changed = found = 1; break; }
+				}
+			if (c->len <= A_MAXLEN) { np = 0; for (int q = 0; q < c->pos; q++) ps[np++] = q; }
+			else np = a_positions(c->len, ps);
+			for (int i = 0; i < np && ps[i] < c->pos; i++) if (try_a(c, kind, c->len, ps[i], c->val, c->bg)) { changed = 1; break; }
 			continue;
 		}
-		/* delete substrings, longest first */
-		for (int w = 4; w >= 1; w--)
+		/* delete substrings, longest first (halves, quarters, ... single characters) */
+		int w0 = 1; while (w0 * 2 <= c->n) w0 *= 2;
+		for (int w = w0; w >= 1; w = w > 4 ? w / 2 : w - 1)
 			for (int i = 0; i + w <= c->n; ) {
-				t = *c;
+				case_copy(&t, c);
 				memmove(t.text + i, t.text + i + w, (size_t)(t.n - i - w));
 				t.n -= w; t.text[t.n] = 0;
-				if (still_fails(&t, kind)) { *c = t; changed = 1; } else i++;
+				if (still_fails(&t, kind)) { case_copy(c, &t); changed = 1; } else i += w > 4 ? w : 1;
 			}
-		/* canonical characters: lower case, digit 0, blank */
-		for (int i = 0; i < c->n; i++) {
+		/* canonical characters, all at once: digit 0, blank */
+		{
+			int any = 0;
+			case_copy(&t, c);
+			for (int i = 0; i < t.n; i++) {
+				int ch = t.text[i];
+				if (ref_is_hex(ch) && ch != '0') { t.text[i] = '0'; any = 1; }
+				else if (ref_is_ws(ch) && ch != ' ') { t.text[i] = ' '; any = 1; }
+			}
+			if (any && still_fails(&t, kind)) { case_copy(c, &t); changed = 1; }
+		}
+		/* then one by one: lower case, digit 0, blank */
+		for (int i = 0; i < c->n && c->n <= 2048; i++) {
 			int ch = c->text[i], alt[5], na = 0;
-			if (is_hex(ch) && ch != '0') alt[na++] = '0';
+			if (ref_is_hex(ch) && ch != '0') alt[na++] = '0';
 			if (ch >= 'A' && ch <= 'F') alt[na++] = ch | 0x20;
 			if (ch > '1' && ch <= '9') alt[na++] = '1';
 			if (ch > 'a' && ch <= 'f') alt[na++] = 'a';
 			if (ch > 'A' && ch <= 'F') alt[na++] = 'A';
-			if (is_ws(ch) && ch != ' ') alt[na++] = ' ';
+			if (ref_is_ws(ch) && ch != ' ') alt[na++] = ' ';
 			for (int a = 0; a < na; a++) {
-				t = *c; t.text[i] = (uint8_t)alt[a];
-				if (still_fails(&t, kind)) { *c = t; changed = 1; break; }
+				case_copy(&t, c); t.text[i] = (uint8_t)alt[a];
+				if (still_fails(&t, kind)) { case_copy(c, &t); changed = 1; break; }
 			}
 		}
 	}
@@ -364,19 +483,42 @@ static void minimise(case_t *c, const char *kind)
 
 /* ------------------------------------------------------- violation reporting */
 
-static const uint8_t c_alpha[9] = { '0', 'a', 'F', 'x', ':', ' ', '\n', 'z', 0x80 };
-
+static void esc_char(vx_sb *sb, int ch)
+{
+	if (ch == '\n') vx_sb_printf(sb, "\\n");
+	else if (ch == '\t') vx_sb_printf(sb, "\\t");
+	else if (ch == '\r') vx_sb_printf(sb, "\\r");
+	else if (ch == '"' || ch == '\\') vx_sb_printf(sb, "\\%c", ch);
+	else if (ch < 0x20 || ch >= 0x7f || ch == '(' || ch == ')' || ch == '{' || ch == '}') vx_sb_printf(sb, "\\x%02x", ch);
+	else vx_sb_printf(sb, "%c", ch);
+}
+/* a text in printable form; a unit of up to 8 characters repeated so that it covers 12 or more is written
+ * (unit){count}; beyond ~360 characters the rest is replaced by the total length and a hash of the whole text */
 static void esc_text(vx_sb *sb, const uint8_t *t, int n)
 {
+	size_t start = sb->n;
+	int i = 0;
 	vx_sb_printf(sb, "\"");
-	for (int i = 0; i < n; i++) {
-		int ch = t[i];
-		if (ch == '\n') vx_sb_printf(sb, "\\n");
-		else if (ch == '\t') vx_sb_printf(sb, "\\t");
-		else if (ch == '\r') vx_sb_printf(sb, "\\r");
-		else if (ch == '"' || ch == '\\') vx_sb_printf(sb, "\\%c", ch);
-		else if (ch < 0x20 || ch >= 0x7f) vx_sb_printf(sb, "\\x%02x", ch);
-		else vx_sb_printf(sb, "%c", ch);
+	while (i < n) {
+		int bp = 0, br = 0;
+		if (sb->n - start > 360) {
+			uint64_t h = 0xcbf29ce484222325ull;
+			for (int k = 0; k < n; k++) h = (h ^ t[k]) * 0x100000001b3ull;
+			vx_sb_printf(sb, "\"...(%d characters in all, fnv1a %016llx)", n, (unsigned long long)h);
+			return;
+		}
+		for (int p = 1; p <= 8 && i + p <= n; p++) {
+			int r = 1;
+			while (i + (r + 1) * p <= n && !memcmp(t + i, t + i + r * p, (size_t)p)) r++;
+			if (r >= 3 && r * p >= 12 && r * p > br * bp) { bp = p; br = r; }
+		}
+		if (bp) {
+			vx_sb_printf(sb, "(");
+			for (int k = 0; k < bp; k++) esc_char(sb, t[i + k]);
+			vx_sb_printf(sb, "){%d}", br);
+			i += bp * br;
+		} else
+			esc_char(sb, t[i++]);
 	}
 	vx_sb_printf(sb, "\"");
 }
@@ -384,6 +526,7 @@ static void seq_text(vx_sb *sb, const int *v, int n)
 {
 	vx_sb_printf(sb, "[");
 	for (int i = 0; i < n; i++) {
+		if (n > 80 && i >= 56 && i < n - 12) { if (i == 56) vx_sb_printf(sb, " ... (%d values) ...", n - 68); continue; }
 		if (v[i] >= 0 && v[i] <= 255) vx_sb_printf(sb, "%s%02x", i ? " " : "", v[i]);
 		else vx_sb_printf(sb, "%s%d", i ? " " : "", v[i]);
 	}
@@ -394,10 +537,10 @@ static void describe_case(vx_sb *sb, const case_t *c)
 	if (c->part == 'a') {
 		if (c->len == 0) vx_sb_printf(sb, "len=0 mode=%d", c->mode);
 		else if (bg_fill[c->bg] >= 0) vx_sb_printf(sb, "len=%d pos=%d val=0x%02x bg=0x%02x mode=%d", c->len, c->pos, c->val, bg_fill[c->bg], c->mode);
-		else vx_sb_printf(sb, "len=%d pos=%d val=0x%02x bg=ramp mode=%d", c->len, c->pos, c->val, c->mode);
+		else vx_sb_printf(sb, "len=%d pos=%d val=0x%02x bg=%s mode=%d", c->len, c->pos, c->val, bg_fill[c->bg] == -1 ? "ramp" : "mod251", c->mode);
 	} else {
 		vx_sb_printf(sb, "mode=%d ", c->mode);
-		if (c->part == 'c' || c->place) vx_sb_printf(sb, "place=%s ", c->place ? "after-guard" : "before-guard");
+		if (c->part == 'c' || c->part == 'd' || c->place) vx_sb_printf(sb, "place=%s ", c->place ? "after-guard" : "before-guard");
 		vx_sb_printf(sb, "text=");
 		esc_text(sb, c->text, c->n);
 	}
@@ -407,9 +550,12 @@ static void replay_text(vx_sb *sb, const case_t *c)
 	vx_sb_printf(sb, "part=%c\nmode=%d\nplace=%d\n", c->part, c->mode, c->place);
 	if (c->part == 'a') vx_sb_printf(sb, "len=%d\npos=%d\nval=%d\nbg=%d\n", c->len, c->pos, c->val, c->bg);
 	else {
-		vx_sb_printf(sb, "hex=");
-		for (int i = 0; i < c->n; i++) vx_sb_printf(sb, "%02x", c->text[i]);
-		vx_sb_printf(sb, "\n");
+		char *hx = malloc((size_t)c->n * 2 + 1);
+		if (!hx) _exit(3);
+		for (int i = 0; i < c->n; i++) sprintf(hx + 2 * i, "%02x", c->text[i]);
+		hx[2 * c->n] = 0;
+		vx_sb_printf(sb, "hex=%s\n", hx);
+		free(hx);
 	}
 }
 
@@ -426,26 +572,46 @@ static int nkslots;
 static int replaying;
 static uint64_t b_fail_mixed, b_fail_other;
 
+static int char_class(int ch)
+{
+	if (ch >= '0' && ch <= '9') return 0;
+	if ((ch | 0x20) >= 'a' && (ch | 0x20) <= 'f' && ch < 0x80) return 1;
+	if (ch == 'x' || ch == 'X') return 2;
+	if (ch == ':') return 3;
+	if (ch == ' ' || ch == '\t') return 4;
+	if (ch == '\n') return 5;
+	if (ch == '\r' || ch == '\v' || ch == '\f') return 6;
+	if (ch == '-' || ch == '+') return 7;
+	if (ch >= 0x80) { int lo = ch & 0x7f; return ref_is_hex(lo) ? 8 : (lo == '\n' || ref_is_ws(lo)) ? 9 : 10; }
+	if (ch == '/' || ch == ';' || ch == '@' || ch == 'G' || ch == 'g' || ch == '`') return 11;
+	if (ch < 0x20 || ch == 0x7f) return 12;
+	return 13;
+}
+
 static uint64_t case_class(const case_t *c)
 {
 	uint64_t k = (uint64_t)(c->mode - 1);
 	if (c->part == 'a') {
-		int l = c->len, bucket = l == 0 ? 0 : l < 16 ? 1 : l == 16 ? 2 : l < 32 ? 3 : l == 32 ? 4 : l < 48 ? 5 : l == 48 ? 6 : 7;
+		int l = c->len, bucket = l == 0 ? 0 : l < 16 ? 1 : l == 16 ? 2 : l < 32 ? 3 : l == 32 ? 4 : l < 48 ? 5 : l == 48 ? 6 : l <= A_MAXLEN ? 7 :
+			l < 256 ? 8 : l < 4096 ? 9 : l < 65536 ? 10 : 11;
 		return k | (uint64_t)c->bg << 1 | (uint64_t)bucket << 4;
 	}
 	if (c->part == 'b') {
-		int exp[MAXT], m, fl = 0, nl = 0;
-		ref_parse(c->text, c->n, exp, &m, &fl, &nl);
+		static int exp[MAXT + 2];
+		int m, fl = 0, nl = 0;
+		ref_parse(c->text, c->n, exp, &m, &fl, &nl, NULL);
 		if (fl & TF_MIXED) b_fail_mixed++; else b_fail_other++;
 		return k | (uint64_t)fl << 1 | (uint64_t)(nl >= 2) << 8;
 	}
 	uint64_t mask = 0;
-	for (int i = 0; i < c->n; i++) for (int a = 0; a < 9; a++) if (c->text[i] == c_alpha[a]) mask |= 1u << a;
-	return k | (uint64_t)c->place << 1 | mask << 2;
+	for (int i = 0; i < c->n; i++) mask |= 1u << char_class(c->text[i]);
+	return k | (uint64_t)c->place << 1 | mask << 2 | (uint64_t)(c->n >= 256) << 20 | (uint64_t)(c->n >= 65536) << 21;
 }
 
 static void report(const case_t *c0, const char *kind)
 {
+	static case_t c;
+	static res_t r;
 	vx_hasher h; vx_h_init(&h);
 	vx_h_u64(&h, (uint64_t)c0->part); vx_h_bytes(&h, kind, strlen(kind)); vx_h_u64(&h, case_class(c0));
 	uint64_t key = vx_h_done(&h).a | 1;
@@ -456,23 +622,27 @@ static void report(const case_t *c0, const char *kind)
 		if (!ks->key) { if (nkslots >= NSLOTS / 2) return; nkslots++; ks->key = key; break; }
 	}
 	if (ks->nmin >= MIN_PER_CLASS && ks->lastsig) { vx_violation(ks->lastsig, "", "(counted only)"); return; }
-	case_t c = *c0;
-	res_t r;
+	case_copy(&c, c0);
 	if (!replaying) minimise(&c, kind);
 	ks->nmin++;
 	const char *k = eval_case(&c, &r);
 	if (!k || strcmp(k, kind)) {	/* not deterministic: keep the case as found */
 		vx_note("a minimised case did not fail again; reported unminimised");
-		c = *c0; k = eval_case(&c, &r);
+		case_copy(&c, c0); k = eval_case(&c, &r);
 		if (!k || strcmp(k, kind)) { vx_note("a failing case did not fail again when re-run (%s)", kind); return; }
 	}
 	vx_sb sig = {0}, rep = {0}, msg = {0};
 	vx_sb_printf(&sig, "C18%c|%s|", c.part, kind);
 	describe_case(&sig, &c);
 	replay_text(&rep, &c);
-	if (c.part == 'a') { vx_sb_printf(&msg, "dump text "); esc_text(&msg, c.text, c.n); vx_sb_printf(&msg, "; "); }
+	if (c.part == 'a' && c.n) { vx_sb_printf(&msg, "dump text "); esc_text(&msg, c.text, c.n); vx_sb_printf(&msg, "; "); }
 	if (r.detail[0]) vx_sb_printf(&msg, "%s; ", r.detail);
-	if (r.have_exp) { vx_sb_printf(&msg, "expected bytes "); seq_text(&msg, r.exp, r.m); vx_sb_printf(&msg, " then -1; "); }
+	if (r.have_exp) {
+		int d = 0;
+		vx_sb_printf(&msg, "expected bytes "); seq_text(&msg, r.exp, r.m); vx_sb_printf(&msg, " then -1; ");
+		while (d < r.m && d < r.o.n && r.o.v[d] == r.exp[d]) d++;
+		if (!strcmp(kind, "seq")) vx_sb_printf(&msg, "first difference at call %d; ", d);
+	}
 	vx_sb_printf(&msg, "hex_get_byte returned "); seq_text(&msg, r.o.v, r.o.n);
 	if (!strcmp(kind, "no-end")) vx_sb_printf(&msg, " (no -1 within len+2 = %d calls)", c.n + 2);
 	vx_violation(sig.s, rep.s, "%s: %s", kind, msg.s);
@@ -484,12 +654,15 @@ static void report(const case_t *c0, const char *kind)
 
 static vx_set seen_all, seen_own;
 static uint64_t n_eval, n_trivial_obs;
+static uint64_t n_eval_part[5], n_valchk_part[5], n_viol_part[5];
 
 static void account(const case_t *c, const res_t *r)
 {
 	vx_hasher h; vx_h_init(&h);
-	int nontrivial = 0;
+	int nontrivial = 0, pi = c->part - 'a';
 	n_eval++;
+	n_eval_part[pi]++;
+	if (r->have_exp) n_valchk_part[pi]++;
 	vx_h_u64(&h, (uint64_t)c->part);
 	vx_h_u64(&h, (uint64_t)r->o.fault);
 	for (int i = 0; i < r->o.n; i++) { vx_h_u64(&h, (uint64_t)(int64_t)r->o.v[i]); if (r->o.v[i] != -1) nontrivial = 1; }
@@ -497,9 +670,9 @@ static void account(const case_t *c, const res_t *r)
 	if (!nontrivial) { n_trivial_obs++; return; }
 	vx_h128 k = vx_h_done(&h);
 	vx_set_add(&seen_all, k);
-	/* (a) is partitioned by array length and the dump text is part of the tuple: its tuples cannot
-	 * recur in another worker, so they are all owned here */
-	if (c->part == 'a' || (int)(k.b % (uint64_t)vx_args.nworkers) == vx_args.worker) vx_set_add(&seen_own, k);
+	/* a1 is partitioned by array length and the dump text is part of the tuple: its tuples cannot recur in another
+	 * worker, so they are all owned here; every other tuple is owned by the worker its hash names */
+	if ((c->part == 'a' && c->len <= A_MAXLEN) || (int)(k.b % (uint64_t)vx_args.nworkers) == vx_args.worker) vx_set_add(&seen_own, k);
 }
 
 /* evaluate, account, report; returns 1 on a violation */
@@ -507,32 +680,40 @@ static int do_case(case_t *c, res_t *r)
 {
 	const char *k = eval_case(c, r);
 	account(c, r);
-	if (k) { report(c, k); return 1; }
+	if (k) { n_viol_part[c->part - 'a']++; report(c, k); return 1; }
 	return 0;
 }
 
-static void sample_case(const case_t *c, const res_t *r)
+/* one sample per family and worker (the evidence keeps the first few workers' samples) */
+static void sample_case(const char *family, case_t *c, res_t *r)
 {
 	if (!vx_want_sample()) return;
+	int mode = c->mode;
+	c->mode = 1;
+	eval_case(c, r);
 	vx_sb sb = {0};
-	vx_sb_printf(&sb, "(%c) ", c->part);
+	vx_sb_printf(&sb, "(%s) ", family);
 	describe_case(&sb, c);
 	if (c->part == 'a') { vx_sb_printf(&sb, " dump="); esc_text(&sb, c->text, c->n); }
 	vx_sb_printf(&sb, " -> ");
 	seq_text(&sb, r->o.v, r->o.n);
+	if (c->part != 'a') vx_sb_printf(&sb, r->have_exp ? " (values checked)" : " (safety clauses only)");
 	vx_sample("%s", sb.s);
 	free(sb.s);
+	c->mode = mode;
 }
 
-/* A part is abandoned (and the run reported as not exhaustive) at the deadline
- * or when it has already produced FAULT_CAP faults in this worker: a caught
+/* A part is abandoned (and the run reported as not exhaustive) at the deadline,
+ * when it has already produced FAULT_CAP faults in this worker (a caught
  * signal costs ~10 us and a tree on which nearly every call faults would
- * otherwise need hours to say the same thing again. */
+ * otherwise need hours to say the same thing again), or when the watchdog has
+ * fired HANG_CAP times in this worker (every hit costs a watchdog period). */
 #define FAULT_CAP 20000
 static uint64_t part_fault_base;
 static void part_begin(void) { part_fault_base = n_faults; }
 static int must_stop(char part)
 {
+	if (giving_up()) { vx_note("part (%c) abandoned after %d watchdog hits in one worker; run is not exhaustive", part, HANG_CAP); return 1; }
 	if (vx_deadline_passed()) { vx_note("part (%c) stopped at the deadline", part); return 1; }
 	if (n_faults - part_fault_base > FAULT_CAP) {
 		vx_note("part (%c) abandoned after more than %d faults in one worker; run is not exhaustive", part, FAULT_CAP);
@@ -545,69 +726,65 @@ static int must_stop(char part)
 
 static int part_a(void)
 {
-	case_t c; res_t r;
-	memset(&c, 0, sizeof(c)); c.part = 'a';
+	static case_t c; static res_t r;
+	memset(&c, 0, offsetof(case_t, text) + 1); c.part = 'a';
 	part_begin();
-	uint64_t na = 0;
-	for (int len = 0; len <= A_MAXLEN; len++) {
+	uint64_t na = 0, nl = 0, idx = 0;
+	int sampled = 0, ok = 1;
+	for (int len = 0; len <= A_MAXLEN && ok; len++) {
 		if (!vx_mine((uint64_t)len)) continue;
-		if (must_stop('a')) { vx_count("a_arrays", na); vx_count("a_evaluations", 2 * na); return 0; }
+		if (must_stop('a')) { ok = 0; break; }
 		c.len = len;
-		for (int pos = 0; pos < (len ? len : 1); pos++)
+		for (int pos = 0; pos < (len ? len : 1) && ok; pos++) {
 			for (int val = 0; val < (len ? 256 : 1); val++)
 				for (int bg = 0; bg < (len ? NBG : 1); bg++) {
 					c.pos = pos; c.val = val; c.bg = bg;
 					na++;
 					for (c.mode = 1; c.mode <= 2; c.mode++) do_case(&c, &r);
-					if ((len == 0 || (len == 17 && pos == 16 && val == 0x5a && bg == 3) ||
-					     (len == 49 && pos == 31 && val == 0xc3 && bg == 4)) ) { c.mode = 1; eval_case(&c, &r); sample_case(&c, &r); }
+					if (giving_up()) { val = 256; break; }
+					if (!sampled && (len == 0 || (pos == len / 2 && val == 0x5a && bg == 3))) { sampled = 1; sample_case("a1", &c, &r); }
 				}
-		vx_count("a_lengths_done", 1);
+			if ((giving_up() || n_faults - part_fault_base > FAULT_CAP) && must_stop('a')) ok = 0;
+		}
+		if (ok) vx_count("a_lengths_done", 1);
 	}
-	vx_count("a_arrays", na); vx_count("a_evaluations", 2 * na);
-	return 1;
+	vx_count("a_arrays", na);
+	/* a2: long arrays */
+	sampled = 0;
+	for (int li = 0; li < LENGTHOF(a_long_quick) + (vx_thorough() ? LENGTHOF(a_long_thorough) : 0) && ok; li++) {
+		int len = li < LENGTHOF(a_long_quick) ? a_long_quick[li] : a_long_thorough[li - LENGTHOF(a_long_quick)];
+		int ps[32], np = a_positions(len, ps);
+		c.len = len;
+		for (int bg = 0; bg < NBG && ok; bg++)
+			for (int p = 0; p < np && ok; p++)
+				for (int v = 0; v < LENGTHOF(a_values); v++) {
+					if (!vx_mine(idx++)) continue;
+					c.pos = ps[p]; c.val = a_values[v]; c.bg = bg;
+					nl++;
+					for (c.mode = 1; c.mode <= 2; c.mode++) do_case(&c, &r);
+					if (!sampled && len >= 256 && bg == 5) { sampled = 1; sample_case("a2", &c, &r); }
+					if ((giving_up() || (nl & 15) == 0) && must_stop('a')) { ok = 0; break; }
+				}
+	}
+	vx_count("a_long_arrays", nl);
+	return ok;
 }
 
 /* ---------------------------------------------------------------- part (b) */
 
 typedef struct { uint8_t len; char s[39]; } line_t;
-static line_t *lines; static int nlines_pool, cap_lines;
+typedef struct { line_t *l; int n, cap; } pool_t;
 
-static const char *b_ws[3] = { "", " ", "\t" };
-static const char *b_trail[2] = { "", " \t\r" };
+static const char *b_ws[6] = { "", " ", "\t", "  ", "\t\t", "   " };
+static const char *b_trail[5] = { "", " \t\r", "  ", "\t\t", "   " };
 static const char *b_addr[3] = { "", "10:", "0fA0:" };
 static const char *b_val[3] = { "0a", "F9", "bC" };
-static int b_nws, b_ntrail, b_naddr, b_nval;
 
-static void add_line(const char *body, const char *trail)
-{
-	if (nlines_pool == cap_lines) { cap_lines = cap_lines ? cap_lines * 2 : 4096; lines = realloc(lines, (size_t)cap_lines * sizeof(line_t)); }
-	line_t *l = &lines[nlines_pool++];
-	int n = snprintf(l->s, sizeof(l->s), "%s%s\n", body, trail);
-	if (n >= (int)sizeof(l->s)) { fprintf(stderr, "c18: line too long\n"); _exit(6); }
-	l->len = (uint8_t)n;
-}
-static void gen_pairs(char *body, int blen, int npairs)
-{
-	for (int t = 0; t < b_ntrail; t++) { body[blen] = 0; add_line(body, b_trail[t]); }
-	if (npairs == 3) return;
-	for (int w = 0; w < b_nws; w++)
-		for (int p = 0; p < 2; p++)
-			for (int v = 0; v < b_nval; v++) {
-				int n = blen + sprintf(body + blen, "%s%s%s", b_ws[w], p ? "0x" : "", b_val[v]);
-				gen_pairs(body, n, npairs + 1);
-			}
-}
-static void gen_lines(void)
-{
-	char body[64];
-	b_nws = b_naddr = 3;
-	b_nval = vx_thorough() ? 3 : 2;
-	b_ntrail = 2;
-	for (int a = 0; a < b_naddr; a++) { int n = sprintf(body, "%s", b_addr[a]); gen_pairs(body, n, 0); }
-}
+typedef struct { int nws, ntrail, nval, maxpairs; pool_t *pool; } gen_t;
 
-static uint64_t bc_texts, bc_two, bc_addr, bc_mixed, bc_prefix, bc_upper, bc_ws, bc_evals, bc_mode2_skipped;
+static uint64_t bc_texts, bc_two, bc_addr, bc_mixed, bc_prefix, bc_upper, bc_ws, bc_mode2_skipped, bc_singles, b_idx;
+static int b_ok, b_sampled_single;
+static case_t b_c; static res_t b_r;
 
 static void b_run(case_t *c, res_t *r)
 {
@@ -615,7 +792,7 @@ static void b_run(case_t *c, res_t *r)
 	do_case(c, r);
 	if (!r->in_grammar) { fprintf(stderr, "c18: generator left the grammar\n"); _exit(6); }
 	int fl = r->flags;
-	bc_texts++; bc_evals++;
+	bc_texts++;
 	if (r->nlines == 2) bc_two++;
 	if (fl & TF_ADDR) bc_addr++;
 	if (fl & TF_MIXED) bc_mixed++;
@@ -625,57 +802,122 @@ static void b_run(case_t *c, res_t *r)
 	if (fl & TF_ADDR) { bc_mode2_skipped++; return; }
 	c->mode = 2;
 	do_case(c, r);
-	bc_evals++;
 }
 
-static const char hexchars[] = "0123456789abcdefABCDEF";
+static void b_emit(const gen_t *g, const char *body, const char *trail)
+{
+	char s[64];
+	int n = snprintf(s, sizeof(s), "%s%s\n", body, trail);
+	if (n >= (int)sizeof(((line_t *)0)->s)) { fprintf(stderr, "c18: line too long\n"); _exit(6); }
+	if (g->pool) {
+		pool_t *p = g->pool;
+		if (p->n == p->cap) { p->cap = p->cap ? p->cap * 2 : 4096; p->l = realloc(p->l, (size_t)p->cap * sizeof(line_t)); if (!p->l) _exit(3); }
+		memcpy(p->l[p->n].s, s, (size_t)n + 1); p->l[p->n].len = (uint8_t)n; p->n++;
+		return;
+	}
+	/* no pool: the line is run on its own */
+	uint64_t i = b_idx++;
+	if (!b_ok || !vx_mine(i)) return;
+	if (giving_up()) { must_stop('b'); b_ok = 0; return; }
+	if ((i & 0xfff) == 0 && must_stop('b')) { b_ok = 0; return; }
+	memcpy(b_c.text, s, (size_t)n + 1); b_c.n = n;
+	b_run(&b_c, &b_r);
+	bc_singles++;
+	if (!b_sampled_single && (i % 977) == 0 && n > 12) { b_sampled_single = 1; sample_case("b single line", &b_c, &b_r); }
+}
+static void gen_pairs(const gen_t *g, char *body, int blen, int npairs)
+{
+	for (int t = 0; t < g->ntrail; t++) { body[blen] = 0; b_emit(g, body, b_trail[t]); }
+	if (npairs == g->maxpairs) return;
+	for (int w = 0; w < g->nws; w++)
+		for (int p = 0; p < 2; p++)
+			for (int v = 0; v < g->nval; v++) {
+				int n = blen + sprintf(body + blen, "%s%s%s", b_ws[w], p ? "0x" : "", b_val[v]);
+				gen_pairs(g, body, n, npairs + 1);
+			}
+}
+static void gen_lines(const gen_t *g)
+{
+	char body[64];
+	for (int a = 0; a < 3; a++) { int n = sprintf(body, "%s", b_addr[a]); gen_pairs(g, body, n, 0); }
+}
+
+static const char hexchars22[] = "0123456789abcdefABCDEF";
 
 static void b_flush(void)
 {
-	vx_count("b_texts", bc_texts); vx_count("b_evaluations", bc_evals);
+	vx_count("b_texts", bc_texts);
+	vx_count("b_texts_single_line_from_the_token_alphabet", bc_singles);
 	vx_count("b_texts_two_lines", bc_two); vx_count("b_texts_with_address_prefix", bc_addr);
 	vx_count("b_texts_plain_line_before_prefixed_line", bc_mixed); vx_count("b_texts_with_0x", bc_prefix);
 	vx_count("b_texts_with_upper_case", bc_upper); vx_count("b_texts_with_white_space", bc_ws);
 	vx_count("b_mode2_skipped_address_prefix", bc_mode2_skipped);
 }
 
+/* every two-line text first + second with the first line from A and the second from B (partitioned over A) */
+static void b_product(const pool_t *A, const pool_t *B, int both_orders, const char *what)
+{
+	int sampled = 0;
+	uint64_t n = 0;
+	for (int i = 0; i < A->n && b_ok; i++) {
+		if (!vx_mine((uint64_t)i)) continue;
+		if (must_stop('b')) { b_ok = 0; break; }
+		for (int j = 0; j < B->n; j++) {
+			for (int o = 0; o <= both_orders; o++) {
+				const line_t *x = o ? &B->l[j] : &A->l[i], *y = o ? &A->l[i] : &B->l[j];
+				memcpy(b_c.text, x->s, x->len); b_c.n = x->len;
+				memcpy(b_c.text + b_c.n, y->s, y->len); b_c.n += y->len; b_c.text[b_c.n] = 0;
+				b_run(&b_c, &b_r);
+				n++;
+			}
+			if (giving_up()) break;
+			if (!sampled && j == (i * 7 + 5) % B->n && A->l[i].len > 9) { sampled = 1; sample_case(what, &b_c, &b_r); }
+		}
+		if (giving_up() || n_faults - part_fault_base > FAULT_CAP) { must_stop('b'); b_ok = 0; }
+	}
+	vx_count(what, n);
+}
+
 static int part_b(void)
 {
-	case_t c; res_t r;
-	memset(&c, 0, sizeof(c)); c.part = 'b';
+	case_t *c = &b_c; res_t *r = &b_r;
+	memset(c, 0, offsetof(case_t, text) + 1); c->part = 'b';
 	part_begin();
-	gen_lines();
-	if (vx_args.worker == 0) vx_count("b_line_pool", (uint64_t)nlines_pool);
+	b_ok = 1;
 	/* the empty text: zero lines */
-	if (vx_mine(0)) { c.n = 0; c.text[0] = 0; b_run(&c, &r); }
+	if (vx_mine(0)) { c->n = 0; c->text[0] = 0; b_run(c, r); }
 	/* sweep: every two-character hex pair, alone, prefixed, after an address, next to a second pair */
-	for (int h = 0; h < 22 * 22; h++) {
+	for (int h = 0; h < 22 * 22 && b_ok; h++) {
 		if (!vx_mine((uint64_t)h)) continue;
-		char a[3] = { hexchars[h / 22], hexchars[h % 22], 0 };
+		char a[3] = { hexchars22[h / 22], hexchars22[h % 22], 0 };
 		static const char *fmt1[] = { "%s\n", "0x%s\n", "10: %s\n", " 0x%s \n", "%s\n\n", "\n%s\n" };
 		for (unsigned f = 0; f < sizeof(fmt1) / sizeof(fmt1[0]); f++) {
-			c.n = sprintf((char *)c.text, fmt1[f], a); b_run(&c, &r);
+			c->n = sprintf((char *)c->text, fmt1[f], a); b_run(c, r);
 		}
-		for (int g = 0; g < 22 * 22; g++) {
-			char b[3] = { hexchars[g / 22], hexchars[g % 22], 0 };
-			c.n = sprintf((char *)c.text, "%s%s\n", a, b); b_run(&c, &r);
-			c.n = sprintf((char *)c.text, "%s 0x%s\n", a, b); b_run(&c, &r);
+		for (int g = 0; g < 22 * 22 && !giving_up(); g++) {
+			char b[3] = { hexchars22[g / 22], hexchars22[g % 22], 0 };
+			c->n = sprintf((char *)c->text, "%s%s\n", a, b); b_run(c, r);
+			c->n = sprintf((char *)c->text, "%s 0x%s\n", a, b); b_run(c, r);
 		}
 		vx_count("b_sweep_pairs_done", 1);
+		if (must_stop('b')) b_ok = 0;
 	}
-	/* "arbitrary white space": every kind of C white space other than blank and tab as a separator, in every position */
+	/* "arbitrary white space": every kind of C white space other than a single blank or tab, and the same
+	 * character repeated, as a separator in every position */
 	{
-		static const char *xw[] = { "\r", "\v", "\f", " \r", "\r ", "\t\f", "\r\v", "\f\r\v" };
-		static const char *xfmt[] = { "%s%s%s\n", "%s%s0x%s\n", "%.0s%s%s\n", "10:%.0s%s%s\n", "10: %s%s%s\n", "%s%s%.0s\n", "%s%s%s\n0a\n", "F9\n%s%s%s\n", "%s%s%s%2$s%1$s\n" };
+		static const char *xw[] = { "\r", "\v", "\f", " \r", "\r ", "\t\f", "\r\v", "\f\r\v", "  ", "\t\t", "   ", "\t\t\t", "    ", "\r\r", "\v\v", "\f\f", " \t ", "\t \t" };
+		static const char *xfmt[] = { "%s%s%s\n", "%s%s0x%s\n", "%.0s%s%s\n", "10:%.0s%s%s\n", "10: %s%s%s\n", "%s%s%.0s\n", "%s%s%s\n0a\n", "F9\n%s%s%s\n", "%s%s%s%2$s%1$s\n",
+					      "%1$s%2$s\n%3$s\n", "%2$s%1$s%2$s%3$s%2$s\n", "%2$s10:%2$s%1$s%2$s0x%3$s%2$s\n%2$s\n%3$s\n" };
 		static const char *xv[] = { "0a", "F9" };
 		int k = 0;
 		for (unsigned w = 0; w < sizeof(xw) / sizeof(xw[0]); w++)
 			for (unsigned f = 0; f < sizeof(xfmt) / sizeof(xfmt[0]); f++)
 				for (int a = 0; a < 2; a++) for (int b = 0; b < 2; b++, k++) {
-					if (!vx_mine((uint64_t)k)) continue;
-					c.n = sprintf((char *)c.text, xfmt[f], xv[a], xw[w], xv[b]);
-					b_run(&c, &r);
-					vx_count("b_texts_with_cr_vt_ff_separators", 1);
+					if (!vx_mine((uint64_t)k) || !b_ok || giving_up()) continue;
+					c->n = sprintf((char *)c->text, xfmt[f], xv[a], xw[w], xv[b]);
+					b_run(c, r);
+					vx_count("b_texts_with_cr_vt_ff_or_repeated_separators", 1);
+					if (k == 301) sample_case("b separators", c, r);
 				}
 	}
 	/* address prefixes that are indented, on the first and on later lines, after blank lines */
@@ -689,59 +931,80 @@ static int part_b(void)
 		int k = 0;
 		for (unsigned f = 0; f < sizeof(ifmt) / sizeof(ifmt[0]); f++)
 			for (int a = 0; a < 3; a++) for (int b = 0; b < 3; b++, k++) {
-				if (!vx_mine((uint64_t)k)) continue;
-				c.n = sprintf((char *)c.text, ifmt[f], iv[a], iv[b]);
-				b_run(&c, &r);
+				if (!vx_mine((uint64_t)k) || !b_ok || giving_up()) continue;
+				c->n = sprintf((char *)c->text, ifmt[f], iv[a], iv[b]);
+				b_run(c, r);
 				vx_count("b_texts_with_indented_address", 1);
 			}
 	}
-	/* all single lines and all ordered pairs of lines from the pool */
-	for (int i = 0; i < nlines_pool; i++) {
-		if (!vx_mine((uint64_t)i)) continue;
-		if (must_stop('b')) { b_flush(); return 0; }
-		memcpy(c.text, lines[i].s, lines[i].len); c.n = lines[i].len; c.text[c.n] = 0;
-		b_run(&c, &r);
-		if (i == 777 || i == nlines_pool - 1) { c.mode = 1; eval_case(&c, &r); sample_case(&c, &r); }
-		for (int j = 0; j < nlines_pool; j++) {
-			c.n = lines[i].len;
-			memcpy(c.text + c.n, lines[j].s, lines[j].len); c.n += lines[j].len; c.text[c.n] = 0;
-			b_run(&c, &r);
-			if (i == nlines_pool - 1 && j == 1234 % nlines_pool) { c.mode = 1; eval_case(&c, &r); sample_case(&c, &r); }
-		}
-		vx_count("b_first_lines_done", 1);
+	if (b_ok && must_stop('b')) b_ok = 0;
+	/* single lines over the wide token alphabet (repeated blanks and tabs between pairs, after a pair, before the newline) */
+	{
+		gen_t g = { 6, 5, vx_thorough() ? 3 : 2, 3, NULL };
+		b_idx = 0;
+		gen_lines(&g);
+		if (vx_args.worker == 0) vx_count("b_single_lines_wide_alphabet", b_idx);
+	}
+	/* two lines, wide alphabet: every line of up to 2 pairs (thorough: also of up to 3 pairs over 2 values) before and
+	 * after every line of up to 1 pair */
+	if (b_ok) {
+		pool_t A = {0}, S = {0};
+		gen_t ga = { 6, 5, vx_thorough() ? 3 : 2, 2, &A }, gs = { 6, 5, vx_thorough() ? 3 : 2, 1, &S };
+		gen_lines(&ga); gen_lines(&gs);
+		if (vx_args.worker == 0) { vx_count("b_line_pool_wide_up_to_2_pairs", (uint64_t)A.n); vx_count("b_line_pool_wide_up_to_1_pair", (uint64_t)S.n); }
+		b_product(&A, &S, 1, "b_two_line_texts_wide_alphabet");
+		free(A.l); free(S.l);
+	}
+	if (b_ok && vx_thorough()) {
+		pool_t A = {0}, S = {0};
+		gen_t ga = { 6, 5, 2, 3, &A }, gs = { 6, 5, 2, 1, &S };
+		gen_lines(&ga); gen_lines(&gs);
+		if (vx_args.worker == 0) vx_count("b_line_pool_wide_up_to_3_pairs", (uint64_t)A.n);
+		b_product(&A, &S, 1, "b_two_line_texts_wide_alphabet_3_pairs");
+		free(A.l); free(S.l);
+	}
+	/* two lines, basic alphabet {"", blank, tab} x {"", " \t\r"}: all ordered pairs of lines of up to 3 pairs */
+	if (b_ok) {
+		pool_t P = {0};
+		gen_t gp = { 3, 2, vx_thorough() ? 3 : 2, 3, &P };
+		gen_lines(&gp);
+		if (vx_args.worker == 0) vx_count("b_line_pool_basic", (uint64_t)P.n);
+		b_product(&P, &P, 0, "b_two_line_texts_basic_alphabet");
+		free(P.l);
 	}
 	b_flush();
-	return 1;
+	return b_ok;
 }
 
 /* ---------------------------------------------------------------- part (c) */
 
-#define C_BLOCK 729
+static const uint8_t c_alpha[9] = { '0', 'a', 'F', 'x', ':', ' ', '\n', 'z', 0x80 };
+/* every character a libc number parser or a sloppy range test treats specially: both ends of the three hex ranges and
+ * their outer neighbours ('/' ':' '@' 'G' '`' 'g'), signs, x X, white space, and high bytes that become a hex digit or
+ * white space when bit 7 is dropped (0xb0 '0', 0xc6 'F', 0xe1 'a', 0xa0 ' ', 0x8a '\n') or are -1 / -128 as a signed char */
+static const uint8_t c2_alpha[28] = { '0', '9', 'a', 'f', 'A', 'F', 'x', 'X', ':', ' ', '\t', '\n', '\r', '-', '+', '/', '@', 'G', 'g', '`', 'z',
+				      0x80, 0x8a, 0xa0, 0xb0, 0xc6, 0xe1, 0xff };
 
-static uint64_t cc_strings, cc_bytes;
-static void c_flush(void)
-{
-	vx_count("c_strings", cc_strings); vx_count("c_evaluations", 4 * cc_strings); vx_count("c_strings_yielding_bytes", cc_bytes);
-}
+static uint64_t cc_strings[2], cc_bytes[2];
 
-static int part_c(int *len_done)
+/* all strings of length 0..maxlen over alpha[0..na); *len_done = the largest length completed */
+static int c_enumerate(const uint8_t *alpha, int na, int maxlen, int which, const char *family, int *len_done)
 {
-	case_t c; res_t r;
-	memset(&c, 0, sizeof(c)); c.part = 'c';
-	part_begin();
-	int maxlen = vx_thorough() ? 8 : 7, csamples = 0;
-	uint64_t block = 0;
+	static case_t c; static res_t r;
+	memset(&c, 0, offsetof(case_t, text) + 1); c.part = 'c';
+	uint64_t block = 0, bsz = (uint64_t)na * na * (na < 16 ? na : 1);
+	int sampled = 0;
 	*len_done = -1;
 	for (int n = 0; n <= maxlen; n++) {
 		uint64_t total = 1;
-		for (int i = 0; i < n; i++) total *= 9;
-		for (uint64_t base = 0; base < total; base += C_BLOCK, block++) {
+		for (int i = 0; i < n; i++) total *= (uint64_t)na;
+		for (uint64_t base = 0; base < total; base += bsz, block++) {
 			if (!vx_mine(block)) continue;
-			if (must_stop('c')) { c_flush(); return 0; }
-			uint64_t end = base + C_BLOCK < total ? base + C_BLOCK : total;
+			if (must_stop('c')) return 0;
+			uint64_t end = base + bsz < total ? base + bsz : total;
 			for (uint64_t idx = base; idx < end; idx++) {
 				uint64_t x = idx;
-				for (int i = n - 1; i >= 0; i--) { c.text[i] = c_alpha[x % 9]; x /= 9; }
+				for (int i = n - 1; i >= 0; i--) { c.text[i] = alpha[x % (uint64_t)na]; x /= (uint64_t)na; }
 				c.text[n] = 0; c.n = n;
 				int bytes = 0;
 				for (c.place = 0; c.place <= 1; c.place++)
@@ -749,25 +1012,145 @@ static int part_c(int *len_done)
 						do_case(&c, &r);
 						if (r.o.first_end > 0) bytes = 1;
 					}
-				cc_strings++;
-				if (bytes) cc_bytes++;
-				if (n == maxlen && csamples < 2 && (idx % 1000003 == 0 || (idx > total / 2 && r.o.first_end >= 2 && idx % 7 == 3))) { csamples++; c.place = 1; c.mode = 1; eval_case(&c, &r); sample_case(&c, &r); }
+				if (giving_up()) break;
+				cc_strings[which]++;
+				if (bytes) cc_bytes[which]++;
+				if (n == maxlen && !sampled && bytes && idx % 7 == 3) { sampled = 1; c.place = 1; sample_case(family, &c, &r); }
 			}
+			if (giving_up()) { must_stop('c'); return 0; }
 		}
 		*len_done = n;
 	}
-	c_flush();
+	return 1;
+}
+
+static int part_c(int *len_done, int *len_done2)
+{
+	part_begin();
+	int ok = c_enumerate(c_alpha, 9, vx_thorough() ? 8 : 7, 0, "c 9-character alphabet", len_done);
+	if (ok) ok = c_enumerate(c2_alpha, 28, vx_thorough() ? 5 : 4, 1, "c 28-character alphabet", len_done2);
+	vx_count("c_strings", cc_strings[0]); vx_count("c_strings_yielding_bytes", cc_bytes[0]);
+	vx_count("c2_strings_wide_alphabet", cc_strings[1]); vx_count("c2_strings_yielding_bytes", cc_bytes[1]);
+	return ok;
+}
+
+/* ---------------------------------------------------------------- part (d) */
+
+static const char *d_tmpl[] = { "00\n", "00 00\n", "0x00\n", "0: 00\n", "00\n00\n", " 00 \n", "00" };
+
+static int part_d(void)
+{
+	static case_t c; static res_t r;
+	memset(&c, 0, offsetof(case_t, text) + 1); c.part = 'd';
+	part_begin();
+	uint64_t idx = 0, nt = 0, ng = 0;
+	int sampled = 0;
+	for (int t = 0; t < LENGTHOF(d_tmpl); t++) {
+		int L = (int)strlen(d_tmpl[t]);
+		for (int i = 0; i < L; i++)
+			for (int j = i; j < L; j++)
+				for (int u = 0; u < 256; u++) {
+					if (!vx_mine(idx++)) continue;
+					if (must_stop('d')) { vx_count("d_texts", nt); vx_count("d_texts_in_grammar", ng); return 0; }
+					for (int v = 0; v < (i == j ? 1 : 256); v++) {
+						memcpy(c.text, d_tmpl[t], (size_t)L + 1);
+						c.text[i] = (uint8_t)u;
+						if (j != i) c.text[j] = (uint8_t)v;
+						c.n = (int)strlen((char *)c.text);
+						for (c.place = 0; c.place <= 1; c.place++)
+							for (c.mode = 1; c.mode <= 2; c.mode++) do_case(&c, &r);
+						if (giving_up()) break;
+						nt++;
+						if (r.in_grammar) ng++;
+						if (!sampled && u >= 0x80 && v == 'a' && j == i + 1) { sampled = 1; c.place = 0; sample_case("d byte sweep", &c, &r); }
+					}
+				}
+	}
+	vx_count("d_texts", nt); vx_count("d_texts_in_grammar", ng);
+	return 1;
+}
+
+/* ---------------------------------------------------------------- part (e) */
+
+static int e_room(const case_t *c, size_t add) { return (size_t)c->n + add <= MAXT; }
+static void e_put(case_t *c, const char *s) { size_t l = strlen(s); memcpy(c->text + c->n, s, l); c->n += (int)l; }
+static void e_rep(case_t *c, const char *unit, int count)	/* count characters of the repeated unit */
+{
+	size_t l = strlen(unit);
+	for (int i = 0; i < count; i++) c->text[c->n++] = (uint8_t)unit[(size_t)i % l];
+}
+static int e_pair_no;
+static void e_pair(case_t *c)			/* pairs differ from their neighbours, every other one in upper case */
+{
+	static const char lo[] = "0123456789abcdef", up[] = "0123456789ABCDEF";
+	int v = (e_pair_no * 29 + 10) & 0xff;
+	const char *d = (e_pair_no & 1) ? up : lo;
+	c->text[c->n++] = (uint8_t)d[v >> 4]; c->text[c->n++] = (uint8_t)d[v & 15];
+	e_pair_no++;
+}
+
+#define E_NTMPL 16
+/* builds template t with count k and white-space unit ws into c; returns 0 if it does not fit MAXT */
+static int e_build(case_t *c, int t, int k, const char *ws)
+{
+	c->n = 0; e_pair_no = 0;
+	size_t K = (size_t)k;
+	switch (t) {
+	case 0: if (!e_room(c, K + 8)) return 0; e_pair(c); e_rep(c, ws, k); e_pair(c); e_put(c, "\n"); break;			/* between pairs */
+	case 1: if (!e_room(c, K + 8)) return 0; e_rep(c, ws, k); e_pair(c); e_put(c, "\n"); break;					/* before the first pair */
+	case 2: if (!e_room(c, K + 8)) return 0; e_pair(c); e_rep(c, ws, k); e_put(c, "\n"); e_pair(c); e_put(c, "\n"); break;	/* after the last pair */
+	case 3: if (!e_room(c, K + 12)) return 0; e_put(c, "10:"); e_rep(c, ws, k); e_pair(c); e_put(c, "\n"); break;		/* after the address */
+	case 4: if (!e_room(c, K + 12)) return 0; e_rep(c, ws, k); e_put(c, "10: "); e_pair(c); e_put(c, "\n"); break;		/* before the address */
+	case 5: if (!e_room(c, K + 12)) return 0; e_pair(c); e_put(c, "\n"); e_rep(c, ws, k); e_put(c, "\n"); e_pair(c); e_put(c, "\n"); break;	/* a line of white space */
+	case 6: if (!e_room(c, K + 12)) return 0; e_pair(c); e_put(c, "\n"); e_rep(c, "\n", k); e_pair(c); e_put(c, "\n"); break;	/* k empty lines */
+	case 7: if (!e_room(c, 3 * K)) return 0; for (int i = 0; i < k; i++) { e_pair(c); e_put(c, "\n"); } break;			/* k lines */
+	case 8: if (!e_room(c, 2 * K + 1)) return 0; for (int i = 0; i < k; i++) e_pair(c); e_put(c, "\n"); break;			/* k pairs on a line */
+	case 9: if (!e_room(c, 3 * K + 1)) return 0; for (int i = 0; i < k; i++) { e_pair(c); e_put(c, " "); } e_put(c, "\n"); break;	/* the same, separated */
+	case 10: if (!e_room(c, K + 12)) return 0; e_rep(c, "0", k); e_put(c, ":"); e_pair(c); e_put(c, "\n"); break;		/* an address of k digits */
+	case 11: if (!e_room(c, K + 16)) return 0; e_pair(c); e_put(c, "\n"); e_rep(c, "4f", k); e_put(c, ": "); e_pair(c); e_put(c, " "); e_pair(c); e_put(c, "\n"); break;
+	case 12: if (!e_room(c, 7 * K)) return 0; for (int i = 0; i < k; i++) { e_put(c, "10: "); e_pair(c); e_put(c, "\n"); } break;	/* k prefixed lines */
+	case 13: if (!e_room(c, 4 * K + 1)) return 0; for (int i = 0; i < k; i++) { e_put(c, "0x"); e_pair(c); } e_put(c, "\n"); break;	/* k prefixed pairs */
+	case 14: if (!e_room(c, 3 * K + 8)) return 0; for (int i = 0; i < k; i++) { e_pair(c); e_put(c, "\t"); } e_put(c, "\n"); e_pair(c); e_put(c, "\n"); break;	/* a long line, then another */
+	case 15: if (!e_room(c, K + 8)) return 0; e_rep(c, "z", k); e_put(c, "\n"); e_pair(c); e_put(c, "\n"); break;		/* a long malformed line: safety only */
+	}
+	c->text[c->n] = 0;
+	return 1;
+}
+
+static int part_e(void)
+{
+	static case_t c; static res_t r;
+	static const int kq[] = { 127, 128, 129, 255, 256, 257, 258, 511, 512, 513 }, kt[] = { 32767, 32768, 32769, 65535, 65536, 65537 };
+	static const char *wsu[] = { " ", "\t", "\r", " \t" };
+	memset(&c, 0, offsetof(case_t, text) + 1); c.part = 'e';
+	part_begin();
+	uint64_t idx = 0, nt = 0, nskip = 0;
+	int sampled = 0;
+	for (int t = 0; t < E_NTMPL; t++)
+		for (int w = 0; w < (t <= 5 ? LENGTHOF(wsu) : 1); w++)
+			for (int ki = 0; ki < LENGTHOF(kq) + (vx_thorough() ? LENGTHOF(kt) : 0); ki++) {
+				int k = ki < LENGTHOF(kq) ? kq[ki] : kt[ki - LENGTHOF(kq)];
+				if (!vx_mine(idx++)) continue;
+				if (must_stop('e')) { vx_count("e_texts", nt); return 0; }
+				if (!e_build(&c, t, k, wsu[w])) { nskip++; continue; }
+				c.place = 0;
+				for (c.mode = 1; c.mode <= 2; c.mode++) do_case(&c, &r);
+				nt++;
+				if (t != 15 && !r.in_grammar) { fprintf(stderr, "c18: long-text generator left the grammar (template %d)\n", t); _exit(6); }
+				if (!sampled && k == 256) { sampled = 1; sample_case("e long text", &c, &r); }
+			}
+	vx_count("e_texts", nt);
+	vx_count("e_texts_skipped_longer_than_MAXT", nskip);
 	return 1;
 }
 
 /* -------------------------------------------------------------------- main */
 
-
 static void do_replay(const char *rp)
 {
-	case_t c; res_t r;
+	static case_t c; static res_t r;
 	const char *f;
-	memset(&c, 0, sizeof(c));
+	memset(&c, 0, offsetof(case_t, text) + 1);
 	replaying = 1;
 	f = vx_replay_field(rp, "part"); c.part = f ? f[0] : 0;
 	f = vx_replay_field(rp, "mode"); c.mode = f ? atoi(f) : 1;
@@ -777,18 +1160,19 @@ static void do_replay(const char *rp)
 		f = vx_replay_field(rp, "pos"); c.pos = f ? atoi(f) : 0;
 		f = vx_replay_field(rp, "val"); c.val = f ? atoi(f) : 0;
 		f = vx_replay_field(rp, "bg"); c.bg = f ? atoi(f) : 0;
-		if (c.len < 0 || c.len > A_MAXLEN || c.pos < 0 || (c.len && c.pos >= c.len) || c.bg < 0 || c.bg >= NBG) { fprintf(stderr, "c18: bad replay\n"); _exit(3); }
-	} else if (c.part == 'b' || c.part == 'c') {
+		if (c.len < 0 || c.len > A_MAXBYTES || c.pos < 0 || (c.len && c.pos >= c.len) || c.bg < 0 || c.bg >= NBG) { fprintf(stderr, "c18: bad replay\n"); _exit(3); }
+	} else if (c.part >= 'b' && c.part <= 'e') {
 		/* the text can be longer than vx_replay_field's buffer: parse it here */
 		const char *p = strstr(rp, "\nhex=");
 		if (!p) { fprintf(stderr, "c18: bad replay (no hex=)\n"); _exit(3); }
 		p += 5;
 		while (isxdigit((unsigned char)p[0]) && isxdigit((unsigned char)p[1]) && c.n < MAXT) {
-			c.text[c.n++] = (uint8_t)(hexval(p[0]) * 16 + hexval(p[1])); p += 2;
+			c.text[c.n++] = (uint8_t)(ref_hexval((unsigned char)p[0]) * 16 + ref_hexval((unsigned char)p[1])); p += 2;
 		}
 		c.text[c.n] = 0;
 	} else { fprintf(stderr, "c18: bad replay (part)\n"); _exit(3); }
 	if (c.mode != 1 && c.mode != 2) { fprintf(stderr, "c18: bad replay (mode)\n"); _exit(3); }
+	if (c.place != 0 && c.place != 1) { fprintf(stderr, "c18: bad replay (place)\n"); _exit(3); }
 	const char *k = eval_case(&c, &r);
 	vx_count("evaluations", 1);
 	if (k) report(&c, k);
@@ -804,34 +1188,51 @@ int main(int argc, char **argv)
 	vx_install_handlers();
 	vx_watchdog(2.0);
 	mem_setup();
+	SINK.cap = 16 * (size_t)A_MAXBYTES + 4096;
+	SINK.buf = malloc(SINK.cap);
+	if (!SINK.buf) _exit(3);
 	vx_set_init(&seen_all, 14); vx_set_init(&seen_own, 12);
 	char *rp = vx_read_replay();
-	if (rp) { do_replay(rp); vx_finish(); return 0; }
+	if (rp) { do_replay(rp); vx_finish(); fflush(stdout); _exit(0); }
 
-	int len_done = -1;
+	int len_done = -1, len_done2 = -1;
 	int a_ok = part_a();
-	int b_ok = part_b();
-	int c_ok = part_c(&len_done);
-	vx_and("exhaustive", a_ok && b_ok && c_ok);
-	vx_and("a_complete", a_ok); vx_and("b_complete", b_ok); vx_and("c_complete", c_ok);
+	int b_ok_ = part_b();
+	int c_ok = part_c(&len_done, &len_done2);
+	int d_ok = part_d();
+	int e_ok = part_e();
+	vx_and("exhaustive", a_ok && b_ok_ && c_ok && d_ok && e_ok);
+	vx_and("a_complete", a_ok); vx_and("b_complete", b_ok_); vx_and("c_complete", c_ok); vx_and("d_complete", d_ok); vx_and("e_complete", e_ok);
 	vx_min("c_max_len_complete", (uint64_t)(len_done < 0 ? 0 : len_done));
+	vx_min("c2_max_len_complete", (uint64_t)(len_done2 < 0 ? 0 : len_done2));
 	vx_count("evaluations", n_eval);
+	for (int p = 0; p < 5; p++) {
+		char name[64];
+		snprintf(name, sizeof(name), "%c_evaluations", 'a' + p); vx_count(name, n_eval_part[p]);
+		snprintf(name, sizeof(name), "%c_evaluations_values_checked", 'a' + p); vx_count(name, n_valchk_part[p]);
+		snprintf(name, sizeof(name), "%c_evaluations_failing", 'a' + p); vx_count(name, n_viol_part[p]);
+	}
 	vx_count("distinct", seen_own.n);
 	vx_count("distinct_upper_bound_sum_per_worker", seen_all.n);
 	vx_max("distinct_seen_by_one_worker_max", seen_all.n);
 	vx_count("evaluations_trivial_observation_only_minus1", n_trivial_obs);
 	vx_count("calls_hex_get_byte", n_calls);
 	vx_count("calls_hex_dump_to_file", n_dumps);
+	vx_count("a_dumps_longer_than_MAXT_not_judged", n_dump_unjudged_long);
 	vx_count("results_byte", n_bytes);
 	vx_count("results_minus1", n_minus1);
 	vx_count("faults_caught", n_faults);
+	vx_count("watchdog_hits", (uint64_t)vx_hangs_seen);
 	vx_count("minimiser_evaluations", n_min_evals);
 	vx_count("b_failing_evaluations_plain_line_before_prefixed_line", b_fail_mixed);
 	vx_count("b_failing_evaluations_other_texts", b_fail_other);
 	vx_count("failure_classes_seen", (uint64_t)nkslots);
+	vx_max("library_static_bytes", (uint64_t)vx_lib_size());
 	vx_note("distinct = observation tuples (part, fault, full sequence of hex_get_byte results [, dump text]) with at least one "
-		"returned byte or dumped character; tuples of (b) and (c) are counted only by the worker owning their hash ((a) tuples are unique to the worker "
+		"returned byte or dumped character; tuples are counted only by the worker owning their hash (a1 tuples are unique to the worker "
 		"that has the array length), so the figure is a lower bound of the global count (distinct_upper_bound_sum_per_worker is the upper bound)");
 	vx_finish();
-	return 0;
+	/* streams abandoned after a fault inside hex_dump_to_file are in an unknown state: they are not flushed at exit */
+	fflush(stdout);
+	_exit(0);
 }
